@@ -220,6 +220,12 @@ def _walk(prob, rng, model_reqs, steps=12):
         if heur == "min_cost_dom_heuristic":
             maxv = max(b for a, b in prob.shr)
             costs = [[rng.choice([1, 1, 2, 3, 5]) for _ in range(maxv + 1)] for _ in prob.shr]
+            if costs != [[]]:
+                # like the zero diagonal of a TSP matrix: at most ONE non-positive ("no cost") entry per row, so that every unbound
+                # domain still contains a value of positive cost (the heuristic's precondition); often in the LAST column
+                for row in costs:
+                    if row and rng.random() < 0.5:
+                        row[rng.choice([len(row) - 1, len(row) - 2, rng.randrange(len(row))]) % len(row)] = 0
         top0 = eng.top
         ev = eng.branch(heur, d, costs)
         levels = []
